@@ -22,7 +22,7 @@ from typing_extensions import NotRequired, TypedDict
 
 __all__ = [
     "TDk",
-    "Rev", "Fwd", "IntKeyed", "LS", "KT", "VT", "FSub", "ISub", "Pops", "T_co", "ANYTHING", "SENTINEL", "NAN", "Perm", "Dyn",
+    "Rev", "Fwd", "IntKeyed", "LS", "KT", "VT", "FSub", "ISub", "Pops", "T_co", "ANYTHING", "SENTINEL", "NAN", "Perm", "Dyn", "NodeP", "EdgeP", "MyNode", "MyEdge",
     "kwmap_int", "kwmap_str", "seq_int", "seq_str",
     "A", "B", "C", "D", "G", "E", "IE", "N", "TD", "TDp", "TDn", "HasX", "SupportsClose",
     "Suppress", "NoSuppress", "cond", "call", "use", "ident", "first", "pair", "apply_fn",
@@ -320,6 +320,44 @@ class Pops(Protocol[T_co]):
     """Structural and generic: list[int] is a Pops[int] (list.pop returns the element type)."""
 
     def pop(self) -> T_co: ...
+
+
+class NodeP(Protocol):
+    """Two protocols that refer to each other: the recursion closes through a cycle of length two."""
+
+    def edge(self) -> "EdgeP": ...
+
+
+class EdgeP(Protocol):
+    def target(self) -> "NodeP": ...
+
+
+class MyNode:
+    def edge(self) -> "MyEdge":
+        return MyEdge()
+
+    def __repr__(self):
+        return "MyNode()"
+
+    def __eq__(self, other):
+        return type(other) is MyNode
+
+    def __hash__(self):
+        return 7
+
+
+class MyEdge:
+    def target(self) -> "MyNode":
+        return MyNode()
+
+    def __repr__(self):
+        return "MyEdge()"
+
+    def __eq__(self, other):
+        return type(other) is MyEdge
+
+    def __hash__(self):
+        return 8
 
 
 class _DynMeta(type):
